@@ -6,8 +6,8 @@
    C18_base64_nonempty), which gives the hypothesis-free C18_roundtrip_concrete. *)
 From Coq Require Import Permutation.
 From Oras Require Import Base.Prelude Base.FlatFS Generated.GC18
-  Model.Utf8 Model.Base64 Model.CredFile Model.CredSave Model.CredConc
-  Proofs.Base64 Proofs.CredFile Proofs.CredSave Proofs.CredConc.
+  Model.Utf8 Model.Json Model.Base64 Model.CredFile Model.CredSave Model.CredConc
+  Proofs.Base64 Proofs.Json Proofs.CredFile Proofs.CredSave Proofs.CredConc Proofs.CredJson.
 
 (* Put then Get -- after any further history that does not Put/Delete the same
    address -- returns exactly the stored credential, whatever order Go's map
@@ -442,6 +442,32 @@ Proof.
            (sim_empty b64_encode bytes None) F).
 Qed.
 Print Assumptions C18_refines_memory_store_fresh.
+
+(* encoding/json's string codec (Model/Json.v: appendString with HTML escaping,
+   unquote with its lossy repairs) is part of the model: every valid UTF-8
+   string -- control characters, quotes, <>&, U+2028/9, any plane -- written as a
+   JSON string reads back as the same bytes *)
+Theorem C18_json_string_roundtrip :
+  forall s, valid_utf8 s = true -> json_unquote (json_quote s) = Some s.
+Proof. exact json_string_roundtrip. Qed.
+Print Assumptions C18_json_string_roundtrip.
+
+(* hence every string an accepted Put hands to encoding/json -- the address (object
+   key), the auth field (base64 text of ANY user/password bytes), the refresh and
+   the access token -- survives the file; a string that is not valid UTF-8 would
+   not, which is why Put refuses it (before fix d7d4ed9 it was written) *)
+Theorem C18_put_fields_survive_json :
+  forall a c,
+    put_accepts a c = true -> Forall (fun x => x < 256) (c_user c ++ colon :: c_pass c) ->
+    Forall (fun x => json_unquote (json_quote x) = Some x)
+           [a; encode_auth b64_encode (c_user c) (c_pass c); c_refresh c; c_access c].
+Proof. exact put_fields_json_roundtrip. Qed.
+Print Assumptions C18_put_fields_survive_json.
+
+Theorem C18_invalid_utf8_refuted :
+  exists s, valid_utf8 s = false /\ json_unquote (json_quote s) <> Some s.
+Proof. exact invalid_utf8_json_lossy. Qed.
+Print Assumptions C18_invalid_utf8_refuted.
 
 (* I/O errors inside a save (error paths of saveFile and ioutil.Ingest): whichever
    system call fails -- a mkdir at any level, the temp-file creation, chmod, any
